@@ -50,6 +50,10 @@ def harness(u, g, arms, N, E, D):
     return hgen.harness([u], body, pre=g.ref_c())
 
 
+def hdr_family(xml):
+    return "vs_hdr" in os.path.basename(xml) or os.path.isabs(xml)
+
+
 def build(ctx):
     hs = []
     G, D = 2, ctx.q(2, 3)
@@ -73,6 +77,21 @@ def build(ctx):
                                         cap=ctx.q(300, 900), backends=["minisat", "kissat"], extra_flags=["--no-standard-checks"],
                                         meta={"big_loops": ["ref_walk_%s.%d" % (msg.name, x) for x in range(16)]},
                                         desc="message %s.%s level %s: setter(s) %s write exactly the reference bytes at the reference position; all other bytes unchanged" % (sch.ns, msg.name, lv.name, [a[0] for a in chunk]),
+                                        bounds={"N": N, "G": G, "D": D, "std": "c++" + std, "build": mode, "byte_order": "BE" if sch.be else "LE"}))
+            # cursor-based setters (the usual way of encoding in order): same obligation, cursor at the position the member requires (all five cursor kinds), documented end position
+            if hdr_family(xml) or (ctx.quick and std != "17"): continue
+            import c04
+            uc = ctx.lower("c01cs_%s_%s" % (sch.ns, msg.name), g.cpp_prelude() + g.cpp_cursor_setters(), std=std, mode=mode, incs=[inc])
+            for lv in g.levels:
+                carms = c04.setter_arms(g, lv, mode == "checked")
+                if not carms: continue
+                groups = [[a] for a in carms] if dynamic else [carms[j:j + 5] for j in range(0, len(carms), 5)]
+                for k, chunk in enumerate(groups):
+                    nm = chunk[0][0] if dynamic else str(k)
+                    hs.append(P.Harness("%s_%s_%s_cursor_%s_%s_cxx%s" % (sch.ns, msg.name, lv.name, nm, mode, std), c04.harness_nw(uc, g, chunk, N, 0, D), [uc], unwind=G + 2,
+                                        cap=ctx.q(300, 900), backends=["minisat", "kissat"], extra_flags=["--no-standard-checks"],
+                                        meta={"big_loops": ["ref_walk_%s.%d" % (msg.name, x) for x in range(16)]},
+                                        desc="message %s.%s level %s: cursor-based setter(s) %s (plain, init, dont_move, init_dont_move) write exactly the reference bytes where the random-access setter writes them; all other bytes unchanged; documented cursor position" % (sch.ns, msg.name, lv.name, [a[0] for a in chunk]),
                                         bounds={"N": N, "G": G, "D": D, "std": "c++" + std, "build": mode, "byte_order": "BE" if sch.be else "LE"}))
     # composition cross-check: one scripted in-order encode (header, fields, groups, entries, data) against the reference image
     for (xml, std, mode) in c02.plan(ctx)[:2 if ctx.quick else None]:
